@@ -896,6 +896,13 @@ func (c1 floatConst) representedBy(typ reflect.Type) (constant, error) {
 		}
 		return nil, fmt.Errorf("constant %s truncated to integer", c1)
 	}
+	if kind == reflect.Float32 || kind == reflect.Complex64 {
+		// Round directly to float32 to avoid a double rounding.
+		if f, _ := c1.f.Float32(); !math.IsInf(float64(f), 0) {
+			return float64Const(f), nil
+		}
+		return nil, fmt.Errorf("constant %s overflows %s", c1, typ)
+	}
 	if f, _ := c1.f.Float64(); !math.IsInf(f, 0) {
 		return float64Const(f).representedBy(typ)
 	}
@@ -1011,6 +1018,13 @@ func (c1 ratConst) binaryOp(op ast.OperatorType, c2 constant) (constant, error) 
 func (c1 ratConst) representedBy(typ reflect.Type) (constant, error) {
 	if c1.r.IsInt() {
 		return intConst{i: c1.r.Num()}.representedBy(typ)
+	}
+	if kind := typ.Kind(); kind == reflect.Float32 || kind == reflect.Complex64 {
+		// Round directly to float32 to avoid a double rounding.
+		if f, _ := c1.r.Float32(); !math.IsInf(float64(f), 0) {
+			return float64Const(f), nil
+		}
+		return nil, fmt.Errorf("constant %s overflows %s", c1, typ)
 	}
 	if f, ok := c1.r.Float64(); ok {
 		return float64Const(f).representedBy(typ)
